@@ -1,5 +1,5 @@
 """C13 — Overlay layers compose by precedence; metadata never ships; keys never collide."""
-import os, json, random, hashlib, shutil, subprocess, concurrent.futures
+import re, os, json, random, hashlib, shutil, subprocess, concurrent.futures
 from vlib.common import *
 from vlib import coqrun as cq
 from vlib.impl import Avh, Sandbox
@@ -118,6 +118,92 @@ def run_ids(ctx, n, n_coq):
                 ctx.sample(case)
     for c in ctx.corr('ids', HEADER, 'check_ids', 'str * str * (str * str * bool)', cases):
         report(ctx, 'model and implementation disagree on module_fs_key / sanitize / legacy_safe', c, no_input=True)
+
+# ------------------------------------------------------------------ stream 1b: machine id / project id
+
+MID_RE = re.compile(r'^[a-z0-9_-]+$')
+
+def gen_machine_src(rng):
+    k = rng.random()
+    words = ['My Host', 'build-box', 'MacBook-Pro.local', 'srv_01', 'UPPER', '..', '../..', '/', '\\', ' ', '-', '--', '_', 'a--b', '\u212a9', '\u0130stanbul',
+             'caf\u00e9', '\u3000wide\u3000', 'x\ty', '\u00a0', '#7', 'CON', 'a.b.c', '\u03a3\u03a3', '\U0001f600', 'y' * 300, '']
+    if k < 0.5:
+        return rng.choice(['', ' ', '  ', '-', '.', '\n']).join(rng.choice(words) for _ in range(rng.randrange(1, 4)))
+    if k < 0.85:
+        return ''.join(rand_scalar(rng) for _ in range(rng.randrange(0, 20)))
+    return rng.choice([' ', '-', '\u2003']) * rng.randrange(0, 3) + rng.choice(words) + rng.choice([' ', '-', '\n', '\u2003']) * rng.randrange(0, 3)
+
+def py_mid_safe(m):
+    return bool(m) and MID_RE.match(m) is not None and not m.startswith('-') and not m.endswith('-')
+
+def run_machine_ids(ctx, n_lib, n_cli):
+    rng = ctx.rng
+    cases = []
+    with Avh() as avh:
+        for i in range(n_lib):
+            src = gen_machine_src(rng)
+            out = avh.call({'op': 'machine_norm', 's': src}).get('out')
+            case = {'stream': 'machine_ids', 'source': src, 'source_codepoints': [ord(c) for c in src], 'normalized': out}
+            if not isinstance(out, str):
+                report(ctx, 'normalize_machine_id failed (panic?)', case); continue
+            if out and not py_mid_safe(out):
+                report(ctx, 'machine id is not a safe path component over [a-z0-9_-] without edge dashes: %r' % out, case)
+            again = avh.call({'op': 'machine_norm', 's': out}).get('out')
+            if again != out:
+                report(ctx, 'normalize_machine_id is not a projection: %r -> %r' % (out, again), case)
+            ctx.count('machine_ids', key=src, nontrivial=(out != src), tags=['empty' if not out else 'nonempty', 'lib'])
+            cases.append((cq.cpair(cq.cstr(src), cq.cstr(out)), case))
+    for c in ctx.corr('machine_ids', HEADER, 'check_machine_norm', 'str * str', cases):
+        report(ctx, 'model and implementation disagree on normalize_machine_id', c, no_input=True)
+    # through the CLI: --machine override and the environment candidates, project id of a project without origin
+    rn = Runner('c13m')
+    cases = []
+    try:
+        world.write_config(rn.sb.repo, manifest_for(rn.codex_home, 'skill:probe'))
+        hn = subprocess.run(['hostname'], capture_output=True)
+        host_out = hn.stdout.decode('utf-8', 'replace') if hn.returncode == 0 else None
+        basis = os.path.realpath(rn.sb.project)
+        for i in range(n_cli):
+            def val():
+                v = gen_machine_src(rng).replace('\x00', '')
+                return v
+            override = val() if rng.random() < 0.5 else None
+            envs = {k: (val() if rng.random() < 0.5 else None) for k in ('AGENTPACK_MACHINE_ID', 'HOSTNAME', 'COMPUTERNAME')}
+            env = rn.sb.env()
+            for k, v in envs.items():
+                env.pop(k, None)
+                if v is not None: env[k] = v
+            got = {}
+            ok = True
+            for scope in ('machine', 'project'):
+                args = [AGENTPACK_BIN] + (['--machine=' + override] if override is not None else []) + ['overlay', 'path', 'skill:probe', '--scope', scope, '--json']
+                try:
+                    p = subprocess.run(args, cwd=rn.sb.project, env=env, capture_output=True, timeout=60)
+                    doc = json.loads(p.stdout.decode('utf-8', 'replace'))
+                    got[scope] = doc['data']['overlay_dir']
+                except Exception as e:
+                    ok = False; got[scope] = repr(e)[:200]
+            case = {'stream': 'machine_cli', 'override': override, 'env': envs, 'hostname_output': host_out, 'overlay_dirs': got}
+            if not ok:
+                report(ctx, 'overlay path failed for some --machine / environment value', case); continue
+            mid = os.path.basename(os.path.dirname(got['machine']))
+            pid = os.path.basename(os.path.dirname(os.path.dirname(got['project'])))
+            case.update(machine_id=mid, project_id=pid)
+            if not py_mid_safe(mid) and mid != 'unknown':
+                report(ctx, 'machine id is not a safe path component: %r' % mid, case)
+            if os.path.dirname(os.path.dirname(got['machine'])) != os.path.join(rn.sb.repo, 'overlays', 'machines'):
+                report(ctx, 'machine overlay directory is not <repo>/overlays/machines/<id>/<key>: %s' % got['machine'], case)
+            if not re.match(r'^[0-9a-f]{16}$', pid) or os.path.dirname(os.path.dirname(os.path.dirname(got['project']))) != os.path.join(rn.sb.repo, 'projects'):
+                report(ctx, 'project overlay directory is not <repo>/projects/<16 hex>/overlays/<key>: %s' % got['project'], case)
+            cands = [envs[k] for k in ('AGENTPACK_MACHINE_ID', 'HOSTNAME', 'COMPUTERNAME') if envs[k] is not None] + ([host_out] if host_out is not None else [])
+            ctx.count('machine_cli', key=(override, tuple(sorted(envs.items(), key=str))), nontrivial=True,
+                      tags=['override' if override is not None else 'detect', 'unknown' if mid == 'unknown' else 'derived'])
+            cases.append((cq.cpair(cq.copt(override, cq.cstr), cq.clist([cq.cstr(x) for x in cands]), cq.cstr(mid),
+                                   cq.cpair(cq.cstr(sha_hex(basis)), cq.cstr(pid))), case))
+    finally:
+        rn.close()
+    for c in ctx.corr('machine_cli', HEADER, 'check_machine_engine', 'option str * list str * str * (str * str)', cases):
+        report(ctx, 'model and implementation disagree on the machine id / project id of an invocation', c, no_input=True)
 
 # ------------------------------------------------------------------ worlds
 
@@ -814,6 +900,7 @@ def run(ctx):
     ctx.notes.append('fs::list_files filters on the %s path in the current tree' % ('ABSOLUTE' if absolute else 'relative'))
     replay_known(ctx, absolute)
     run_ids(ctx, 10000 if quick else 100000, 10000 if quick else 40000)
+    run_machine_ids(ctx, 1500 if quick else 30000, 60 if quick else 1200)
     run_resolve(ctx, 120 if quick else 1500)
     n = 260 if quick else 3000
     seeds = [ctx.rng.randrange(1 << 48) for _ in range(n)]
